@@ -1,8 +1,19 @@
-//! asyncd engine (C15): random operation sequences on a real `AsyncDispatcher` built by
-//! `DispatcherBuilder::build_async`, with systems held inside `run` by gates while the caller
-//! polls `running()` or blocks in an accessor. The caller's `call` / `ret` events and the
-//! systems' F / D events go to one totally ordered log; implementation-side oracles decide the
-//! property on that log, then the log is fed to the Lean acceptor (`asyncd` sub-model).
+//! asyncd engine (C15): operation histories on a real `AsyncDispatcher` built by
+//! `DispatcherBuilder::build_async`: every public method (dispatch, wait, wait_without_tl,
+//! running, world, res, world_mut, mut_res, setup) in every order, each one issued
+//!   * while the job is certainly still running — chosen systems are held inside `run` by gates
+//!     (or the job is kept queued behind harness jobs that occupy every pool thread) and are
+//!     released only after the observation under test has returned or the calling thread has
+//!     been *seen* parked inside it (scheduler state of the thread, not a timer), and
+//!   * after the job has certainly finished on its own — `settle`: the harness waits for the
+//!     systems' own completion signal and for the pool to go idle without calling any method
+//!     of the dispatcher (logged as `quiet`).
+//! The dispatcher lives on its own thread; the engine's thread watches it (release of held
+//! systems, detection of a call that stays parked although nothing is left to wait for).
+//! The caller's `call` / `ret` events, `quiet` and the systems' F / D events go to one totally
+//! ordered log; implementation-side oracles decide the property on that log and on counters
+//! read at the very moment a call returns, then the log is fed to the Lean acceptor
+//! (`asyncd` sub-model).
 use crate::build::*;
 use crate::common::*;
 use crate::engines::asyncd_sys::*;
@@ -12,8 +23,8 @@ use crate::sys::*;
 use shred::*;
 use std::collections::BTreeMap;
 use std::panic::{catch_unwind, AssertUnwindSafe};
-use std::sync::atomic::{AtomicU64, Ordering::SeqCst};
-use std::sync::Arc;
+use std::sync::atomic::{AtomicBool, AtomicU64, AtomicUsize, Ordering::SeqCst};
+use std::sync::{mpsc, Arc, Mutex};
 use std::time::{Duration, Instant};
 
 #[derive(Clone, Debug, PartialEq)]
@@ -22,10 +33,15 @@ pub enum Rel {
     Block(u64),
     /// gates open `us` after `dispatch` returned
     Timer(u64),
+    /// the dispatch stays held over the next `n` operations: released when the n-th of them has
+    /// returned, or as soon as the calling thread has been seen parked inside one of them
+    Obs(u64),
 }
 #[derive(Clone, Debug, PartialEq)]
 pub enum AOp {
-    Dispatch { gate: Vec<usize>, rel: Rel },
+    /// `queue`: every pool thread is occupied by a harness job until the release, so that the
+    /// dispatched job has certainly not started
+    Dispatch { gate: Vec<usize>, rel: Rel, queue: bool },
     Running,
     /// poll `running()` (every poll is logged) until it answers false, at most 60 times
     Spin,
@@ -34,8 +50,16 @@ pub enum AOp {
     World,
     WorldMut,
     Setup,
+    /// deprecated alias of `world`
+    Res,
+    /// deprecated alias of `world_mut`
+    MutRes,
+    /// not a dispatcher method: everything held is released and the harness waits for the
+    /// systems' own completion signal (then for the pool to go idle); logged as `quiet`
+    Settle,
 }
-pub const OPS: [&str; 7] = ["dispatch", "wait", "wait_without_tl", "running", "world", "world_mut", "setup"];
+pub const OPS: [&str; 9] = ["dispatch", "wait", "wait_without_tl", "running", "world", "world_mut", "setup", "res", "mut_res"];
+
 impl AOp {
     fn code(&self) -> usize {
         match self {
@@ -46,22 +70,28 @@ impl AOp {
             AOp::World => 4,
             AOp::WorldMut => 5,
             AOp::Setup => 6,
+            AOp::Res => 7,
+            AOp::MutRes => 8,
+            AOp::Settle => usize::MAX,
         }
     }
     fn blocking(&self) -> bool {
-        !matches!(self, AOp::Running | AOp::Spin)
+        !matches!(self, AOp::Running | AOp::Spin | AOp::Settle)
     }
     fn line(&self) -> String {
         match self {
-            AOp::Dispatch { gate, rel } => format!(
-                "aop dispatch gate={} rel={}",
+            AOp::Dispatch { gate, rel, queue } => format!(
+                "aop dispatch gate={} rel={}{}",
                 if gate.is_empty() { "-".to_string() } else { gate.iter().map(|x| x.to_string()).collect::<Vec<_>>().join(",") },
                 match rel {
                     Rel::Block(us) => format!("block:{}", us),
                     Rel::Timer(us) => format!("timer:{}", us),
-                }
+                    Rel::Obs(n) => format!("obs:{}", n),
+                },
+                if *queue { " queue=1" } else { "" }
             ),
             AOp::Spin => "aop spin".into(),
+            AOp::Settle => "aop settle".into(),
             o => format!("aop {}", OPS[o.code()]),
         }
     }
@@ -107,6 +137,7 @@ impl Case {
                 ["aop", "dispatch", rest @ ..] => {
                     let mut gate = vec![];
                     let mut rel = Rel::Block(200);
+                    let mut queue = false;
                     for kv in rest {
                         if let Some(v) = kv.strip_prefix("gate=") {
                             gate = v.split(',').filter_map(|x| x.parse().ok()).collect();
@@ -114,12 +145,19 @@ impl Case {
                             let mut q = v.split(':');
                             let k = q.next().unwrap_or("block");
                             let us = q.next().and_then(|x| x.parse().ok()).unwrap_or(200);
-                            rel = if k == "timer" { Rel::Timer(us) } else { Rel::Block(us) };
+                            rel = match k {
+                                "timer" => Rel::Timer(us),
+                                "obs" => Rel::Obs(us.clamp(1, 64)),
+                                _ => Rel::Block(us),
+                            };
+                        } else if let Some(v) = kv.strip_prefix("queue=") {
+                            queue = v == "1";
                         }
                     }
-                    c.aops.push(AOp::Dispatch { gate, rel });
+                    c.aops.push(AOp::Dispatch { gate, rel, queue });
                 }
                 ["aop", "spin"] => c.aops.push(AOp::Spin),
+                ["aop", "settle"] => c.aops.push(AOp::Settle),
                 ["aop", name] => {
                     let a = match *name {
                         "wait" => Some(AOp::Wait),
@@ -128,6 +166,8 @@ impl Case {
                         "world" => Some(AOp::World),
                         "world_mut" => Some(AOp::WorldMut),
                         "setup" => Some(AOp::Setup),
+                        "res" => Some(AOp::Res),
+                        "mut_res" => Some(AOp::MutRes),
                         _ => None,
                     };
                     if let Some(a) = a {
@@ -173,7 +213,7 @@ pub fn gen_case(seed: u64, c: u64, max_ops: u64) -> Case {
     let mut any_dispatch = false;
     for _ in 0..n {
         let k = r.below(100);
-        let a = if k < 34 || !any_dispatch && k < 60 {
+        let a = if k < 30 || !any_dispatch && k < 55 {
             let mut gate = vec![];
             if !staged.is_empty() && r.chance(65) {
                 for _ in 0..1 + r.below(3) {
@@ -183,35 +223,114 @@ pub fn gen_case(seed: u64, c: u64, max_ops: u64) -> Case {
                     }
                 }
             }
-            let rel = if r.chance(60) { Rel::Block(100 + r.below(900)) } else { Rel::Timer(50 + r.below(1200)) };
-            block_pending = !gate.is_empty() && matches!(rel, Rel::Block(_));
+            let queue = r.chance(15);
+            let rel = match r.below(100) {
+                0..=44 => Rel::Obs(1 + r.below(3)),
+                45..=69 => Rel::Block(100 + r.below(900)),
+                _ => Rel::Timer(50 + r.below(1200)),
+            };
+            block_pending = (!gate.is_empty() || queue) && !matches!(rel, Rel::Timer(_));
             any_dispatch = true;
-            AOp::Dispatch { gate, rel }
-        } else if k < 58 {
+            AOp::Dispatch { gate, rel, queue }
+        } else if k < 50 {
             AOp::Running
-        } else if k < 64 {
+        } else if k < 55 {
             if block_pending {
                 AOp::Running
             } else {
                 AOp::Spin
             }
-        } else if k < 76 {
+        } else if k < 64 {
             AOp::Wait
-        } else if k < 84 {
+        } else if k < 70 {
             AOp::WaitNoTl
-        } else if k < 89 {
+        } else if k < 74 {
             AOp::World
-        } else if k < 94 {
+        } else if k < 78 {
+            AOp::Res
+        } else if k < 82 {
             AOp::WorldMut
-        } else if case.arc {
-            AOp::World
+        } else if k < 86 {
+            AOp::MutRes
+        } else if k < 91 {
+            if case.arc {
+                AOp::World
+            } else {
+                AOp::Setup
+            }
         } else {
-            AOp::Setup
+            AOp::Settle
         };
-        if a.blocking() && !matches!(a, AOp::Dispatch { .. }) {
+        if a.blocking() && !matches!(a, AOp::Dispatch { .. }) || a == AOp::Settle {
             block_pending = false;
         }
+        let was_dispatch = matches!(a, AOp::Dispatch { .. });
         case.aops.push(a);
+        // a dispatch that is left alone until it has finished
+        if was_dispatch && r.chance(20) {
+            case.aops.push(AOp::Settle);
+            block_pending = false;
+        }
+    }
+    case
+}
+
+/// the contexts in which a history step issues its operation
+pub const CTX: [&str; 4] = ["idle", "held", "queued", "settled"];
+/// number of different history steps: (context, entry point)
+pub const STEPS: u64 = (CTX.len() * OPS.len()) as u64;
+
+fn entry(code: usize) -> AOp {
+    match code {
+        0 => AOp::Dispatch { gate: vec![], rel: Rel::Timer(0), queue: false },
+        1 => AOp::Wait,
+        2 => AOp::WaitNoTl,
+        3 => AOp::Running,
+        4 => AOp::World,
+        5 => AOp::WorldMut,
+        6 => AOp::Setup,
+        7 => AOp::Res,
+        _ => AOp::MutRes,
+    }
+}
+
+/// the `idx`-th history of `depth` steps, each step = one entry point issued in one of four
+/// contexts: `idle` (no new dispatch), `held` (a fresh dispatch with a system held inside `run`
+/// until the entry point has returned or the caller is seen parked in it), `queued` (a fresh
+/// dispatch whose job cannot start before that), `settled` (a fresh dispatch that has finished
+/// on its own and has not been looked at). `variant` picks the plan, the held system, the pool
+/// size and the world type.
+pub fn hist_case(idx: u64, depth: u64, variant: u64) -> Case {
+    let mut steps = vec![];
+    let mut x = idx;
+    for _ in 0..depth {
+        steps.push(x % STEPS);
+        x /= STEPS;
+    }
+    steps.reverse();
+    let uses_setup = steps.iter().any(|s| (s % OPS.len() as u64) == 6);
+    // (plan, gate, threads, arc)
+    let a = ["sys 0 7330 - - 0.0 1", "sys 1 7331 - 1.0 - 1", "sys 2 7332 7330 0.0 - 1", "tl 3 - -"];
+    let b = ["sys 0 7330 - - 0.0 1"];
+    let c = ["sys 0 7330 - - 0.0 1", "sys 1 7331 - - 0.0 1", "sys 2 7332 - - 0.0 1", "tl 3 - -", "tl 4 - -"];
+    let variants: [(&[&str], &[usize], usize, bool); 8] =
+        [(&a, &[0], 2, false), (&a, &[2], 1, false), (&b, &[0], 1, false), (&c, &[2], 3, false), (&a, &[1], 4, false), (&c, &[1], 2, false), (&a, &[2], 2, true), (&c, &[0, 2], 3, true)];
+    let nv = if uses_setup { 6 } else { 8 };
+    let (plan, gate, threads, arc) = variants[(variant % nv) as usize];
+    let lines: Vec<String> = plan.iter().map(|s| s.to_string()).collect();
+    let mut case = Case { ops: Op::parse(&lines), arc, threads, holds: vec![], aops: vec![] };
+    for s in steps {
+        let (ctx, op) = ((s / OPS.len() as u64) as usize, (s % OPS.len() as u64) as usize);
+        match ctx {
+            1 => case.aops.push(AOp::Dispatch { gate: gate.to_vec(), rel: Rel::Obs(1), queue: false }),
+            2 => case.aops.push(AOp::Dispatch { gate: vec![], rel: Rel::Obs(1), queue: true }),
+            3 => {
+                case.aops.push(AOp::Dispatch { gate: vec![], rel: Rel::Timer(0), queue: false });
+                case.aops.push(AOp::Settle);
+            }
+            _ => {}
+        }
+        case.aops.push(entry(op));
     }
     case
 }
@@ -224,6 +343,8 @@ pub enum Ent {
     /// F / D (or P) of system `tag` on thread `th`; `d` = how many events of the same kind and
     /// tag precede it (= the dispatch number for ordinary systems)
     Sys { k: char, tag: usize, th: char, d: usize },
+    /// the harness has seen the systems' own completion signal (no dispatcher method involved)
+    Quiet,
 }
 impl Ent {
     pub fn show(&self) -> String {
@@ -231,16 +352,32 @@ impl Ent {
             Ent::Call(o) => format!("call {}", OPS[*o]),
             Ent::Ret(o, v) => format!("ret {} {}", OPS[*o], *v as u8),
             Ent::Sys { k, tag, th, d } => format!("ev {} {} {} {}", k, tag, th, d),
+            Ent::Quiet => "quiet".into(),
         }
     }
 }
 
+#[derive(Default)]
 pub struct RunOut {
     pub log: Vec<Ent>,
+    /// for every `Ret` entry: (index in `log`, systems inside `run`, `run`s of ordinary systems
+    /// that have returned) — both read at the moment the call returned, before anything else
+    pub snaps: Vec<(usize, usize, u64)>,
     pub panicked: Option<String>,
+    /// a call that stayed parked although nothing was left to wait for: (operation, evidence)
+    pub hang: Option<(String, String)>,
     pub watchdog: bool,
     pub runs: BTreeMap<usize, u64>,
     pub gate_waits: u64,
+    /// how held dispatches were released: the caller was seen parked inside the operation /
+    /// the operation(s) had returned / `settle` / the bound expired
+    pub rel_blocked: u64,
+    pub rel_returned: u64,
+    pub rel_settle: u64,
+    pub rel_fallback: u64,
+    pub quiet_seen: u64,
+    pub quiet_missed: u64,
+    pub pool_idle_seen: u64,
 }
 
 enum Disp {
@@ -256,24 +393,115 @@ macro_rules! with_d {
     };
 }
 
-/// runs the operation sequence on the real dispatcher; everything is logged on `shared`
-pub fn run_real(case: &Case, shared: &Arc<Shared>, pools: &[Pool], skip: &[usize], watchdog_ms: u64) -> RunOut {
-    let ntags = Op::max_tag(&case.ops) + 1;
-    let gates = Gates::new(ntags, watchdog_ms);
-    shared.reset_behaviour();
-    shared.reset_state();
-    shared.take_log();
-    shared.set_caller();
-    for (t, us) in &case.holds {
-        if let Some(b) = shared.behav.get(*t) {
-            b.hold_us.store(*us, SeqCst);
+/// what the engine needs besides the case
+pub struct Env {
+    pub pools: Vec<Pool>,
+    /// OS thread ids of the workers of each pool (empty / 0 when they cannot be determined)
+    pub tids: Vec<Vec<u64>>,
+    pub watchdog_ms: u64,
+    /// a call is reported as stuck after it has been seen parked, with an idle pool, nothing
+    /// held and no system inside `run`, at every sample over this many milliseconds
+    pub hang_ms: u64,
+}
+impl Env {
+    pub fn new(watchdog_ms: u64, hang_ms: u64) -> Env {
+        let pools: Vec<Pool> = (1..=4).map(make_pool).collect();
+        let tids = pools.iter().map(|p| p.broadcast(|_| os_tid())).collect();
+        Env { pools, tids, watchdog_ms, hang_ms }
+    }
+}
+
+/// a dispatch whose systems (or whose job) the harness keeps from finishing
+struct Hold {
+    disp: u64,
+    gate: Vec<usize>,
+    latch: Option<Arc<Latch>>,
+    /// operations still to be observed before the release
+    left: u64,
+}
+
+/// shared between the thread that owns the dispatcher and the engine's thread that watches it
+struct Watch {
+    /// sequence number of the dispatcher call the caller has entered / that has returned
+    entered: AtomicU64,
+    returned: AtomicU64,
+    cur_op: AtomicUsize,
+    tid: AtomicU64,
+    holds: Mutex<Vec<Hold>>,
+    /// helper threads (timer / legacy block releases) that have not opened their gates yet
+    legacy_pending: AtomicU64,
+    rel_blocked: AtomicU64,
+    rel_returned: AtomicU64,
+    rel_settle: AtomicU64,
+    rel_fallback: AtomicU64,
+    quiet_seen: AtomicU64,
+    quiet_missed: AtomicU64,
+    pool_idle_seen: AtomicU64,
+    abandoned: AtomicBool,
+}
+impl Watch {
+    fn release_all(&self, gates: &Gates) -> usize {
+        let hs: Vec<Hold> = std::mem::take(&mut *self.holds.lock().unwrap());
+        for h in &hs {
+            for t in &h.gate {
+                gates.open(*t, h.disp);
+            }
+            if let Some(l) = &h.latch {
+                l.open();
+            }
+        }
+        hs.len()
+    }
+    /// an operation has returned: holds that were to last over it are released
+    fn op_returned(&self, gates: &Gates) {
+        let mut due = vec![];
+        {
+            let mut hs = self.holds.lock().unwrap();
+            let mut i = 0;
+            while i < hs.len() {
+                hs[i].left = hs[i].left.saturating_sub(1);
+                if hs[i].left == 0 {
+                    due.push(hs.remove(i));
+                } else {
+                    i += 1;
+                }
+            }
+        }
+        for h in &due {
+            for t in &h.gate {
+                gates.open(*t, h.disp);
+            }
+            if let Some(l) = &h.latch {
+                l.open();
+            }
+            self.rel_returned.fetch_add(1, SeqCst);
         }
     }
-    let pool = &pools[(case.threads - 1).min(pools.len() - 1)];
-    let staged = case.staged();
-    let mut out = RunOut { log: vec![], panicked: None, watchdog: false, runs: BTreeMap::new(), gate_waits: 0 };
+}
+
+fn all_parked(tids: &[u64]) -> Option<bool> {
+    if tids.is_empty() {
+        return None;
+    }
+    let mut all = true;
+    for t in tids {
+        match thread_state(*t) {
+            Some('S') => {}
+            Some(_) => all = false,
+            None => return None,
+        }
+    }
+    Some(all)
+}
+
+/// the part of `run_real` that runs on the thread owning the dispatcher; Some(text) = an
+/// operation panicked
+fn caller_body(case: &Case, shared: &Arc<Shared>, gates: &Arc<Gates>, w: &Arc<Watch>, pool: &Pool, ptids: &[u64], skip: &[usize], watchdog_ms: u64) -> Option<String> {
+    shared.set_caller();
+    w.tid.store(os_tid(), SeqCst);
+    let staged: Vec<usize> = case.staged().into_iter().filter(|t| !skip.contains(t)).collect();
     let built = catch_unwind(AssertUnwindSafe(|| {
-        let b = build_gated(&case.ops, shared, &gates, pool, skip);
+        let b = build_gated(&case.ops, shared, gates, pool, skip);
         if case.arc {
             Disp::Shared(b.build_async(Arc::new(full_world())))
         } else {
@@ -282,33 +510,114 @@ pub fn run_real(case: &Case, shared: &Arc<Shared>, pools: &[Pool], skip: &[usize
     }));
     let mut d = match built {
         Ok(d) => d,
-        Err(p) => {
-            out.panicked = Some(format!("build_async panicked: {}", panic_message(&p)));
-            return out;
-        }
+        Err(p) => return Some(format!("build_async panicked: {}", panic_message(&p))),
     };
-    // number of blocking operations the caller has entered so far
+    let mut panicked = None;
+    // number of blocking operations the caller has entered so far (timer / block releases)
     let entered = Arc::new(AtomicU64::new(0));
     let mut helpers = vec![];
     let mut aops = case.aops.clone();
-    if !matches!(aops.last(), Some(AOp::Wait) | Some(AOp::WaitNoTl) | Some(AOp::World) | Some(AOp::WorldMut) | Some(AOp::Setup)) {
+    if !matches!(aops.last(), Some(AOp::Wait) | Some(AOp::WaitNoTl) | Some(AOp::World) | Some(AOp::WorldMut) | Some(AOp::Setup) | Some(AOp::Res) | Some(AOp::MutRes)) {
         aops.push(AOp::Wait);
     }
     let mut n_dispatch = 0u64;
+    let mut seq = 0u64;
+    let fin = |gates: &Gates| -> u64 { staged.iter().map(|t| gates.done[*t].load(SeqCst)).sum() };
     'script: for a in &aops {
+        if *a == AOp::Settle {
+            // let everything finish on its own: no method of the dispatcher is called
+            if w.release_all(gates) > 0 {
+                w.rel_settle.fetch_add(1, SeqCst);
+            }
+            // (timer / block releases take it for the caller's next blocking operation)
+            entered.fetch_add(1, SeqCst);
+            let t0 = Instant::now();
+            let mut idle_run = 0;
+            let complete = loop {
+                if staged.iter().all(|t| gates.done[*t].load(SeqCst) >= n_dispatch) {
+                    break true;
+                }
+                if t0.elapsed() > Duration::from_millis(watchdog_ms) {
+                    break false;
+                }
+                // nothing will finish any more when every worker is parked and nothing is held
+                // (a dispatcher that lost a job); not a verdict here — the next return is judged
+                if w.legacy_pending.load(SeqCst) == 0 && all_parked(ptids) == Some(true) {
+                    idle_run += 1;
+                    if idle_run >= 8 {
+                        break false;
+                    }
+                    std::thread::sleep(Duration::from_micros(200));
+                } else {
+                    idle_run = 0;
+                    std::thread::sleep(Duration::from_micros(20));
+                }
+            };
+            if complete {
+                shared.push('Q', vec![]);
+                w.quiet_seen.fetch_add(1, SeqCst);
+                // … and until the job itself is over (its worker parked again): steering only,
+                // nothing is concluded from it
+                let t1 = Instant::now();
+                let mut parked = 0;
+                while t1.elapsed() < Duration::from_millis(20) {
+                    match all_parked(ptids) {
+                        Some(true) => {
+                            parked += 1;
+                            if parked >= 2 {
+                                w.pool_idle_seen.fetch_add(1, SeqCst);
+                                break;
+                            }
+                        }
+                        Some(false) => parked = 0,
+                        None => {
+                            std::thread::sleep(Duration::from_micros(300));
+                            break;
+                        }
+                    }
+                    std::thread::sleep(Duration::from_micros(30));
+                }
+            } else {
+                w.quiet_missed.fetch_add(1, SeqCst);
+            }
+            continue;
+        }
         let polls = if *a == AOp::Spin { 60 } else { 1 };
         for _ in 0..polls {
-            if let AOp::Dispatch { gate, .. } = a {
+            let mut latch = None;
+            if let AOp::Dispatch { gate, queue, .. } = a {
                 for t in gate {
                     if staged.contains(t) {
                         gates.close(*t, n_dispatch);
                     }
+                }
+                if *queue {
+                    // one harness job per pool thread, injected in front of the dispatcher's job
+                    let l = Latch::new();
+                    for _ in 0..case.threads {
+                        let l2 = l.clone();
+                        pool.spawn(move || {
+                            l2.wait(watchdog_ms);
+                        });
+                    }
+                    latch = Some(l);
+                }
+                // registered before the call: if `dispatch` itself has to wait (for the previous
+                // job, which may need the occupied threads) the watcher can release it
+                let gate: Vec<usize> = gate.iter().cloned().filter(|t| staged.contains(t)).collect();
+                if !gate.is_empty() || latch.is_some() {
+                    let left = if let AOp::Dispatch { rel: Rel::Obs(n), .. } = a { *n + 1 } else { u64::MAX };
+                    w.holds.lock().unwrap().push(Hold { disp: n_dispatch, gate, latch: latch.clone(), left });
                 }
             }
             shared.push('C', vec![a.code()]);
             if a.blocking() {
                 entered.fetch_add(1, SeqCst);
             }
+            seq += 1;
+            w.cur_op.store(a.code(), SeqCst);
+            w.entered.store(seq, SeqCst);
+            #[allow(deprecated)]
             let res = catch_unwind(AssertUnwindSafe(|| match a {
                 AOp::Dispatch { .. } => {
                     with_d!(&mut d, x => x.dispatch());
@@ -329,9 +638,21 @@ pub fn run_real(case: &Case, shared: &Arc<Shared>, pools: &[Pool], skip: &[usize
                     });
                     false
                 }
+                AOp::Res => {
+                    with_d!(&mut d, x => {
+                        let _ = x.res();
+                    });
+                    false
+                }
                 AOp::WorldMut => {
                     with_d!(&mut d, x => {
                         let _ = x.world_mut();
+                    });
+                    false
+                }
+                AOp::MutRes => {
+                    with_d!(&mut d, x => {
+                        let _ = x.mut_res();
                     });
                     false
                 }
@@ -344,25 +665,59 @@ pub fn run_real(case: &Case, shared: &Arc<Shared>, pools: &[Pool], skip: &[usize
                     }
                     false
                 }
+                AOp::Settle => false,
             }));
+            // the state at the moment of the return, before anything else is done
+            let inside = shared.inside.load(SeqCst);
+            let done = fin(gates);
+            w.returned.store(seq, SeqCst);
             match res {
-                Ok(v) => shared.push('R', vec![a.code(), v as usize]),
+                Ok(v) => shared.push('R', vec![a.code(), v as usize, inside, done as usize]),
                 Err(p) => {
-                    out.panicked = Some(format!("{} panicked: {}", OPS[a.code()], panic_message(&p)));
+                    panicked = Some(format!("{} panicked: {}", OPS[a.code()], panic_message(&p)));
+                    if let Some(l) = latch {
+                        l.open();
+                    }
                     break 'script;
                 }
             }
-            if let AOp::Dispatch { gate, rel } = a {
+            w.op_returned(gates);
+            if let AOp::Dispatch { gate, rel, .. } = a {
                 let my = n_dispatch;
                 n_dispatch += 1;
                 let gate: Vec<usize> = gate.iter().cloned().filter(|t| staged.contains(t)).collect();
-                if !gate.is_empty() {
+                if matches!(rel, Rel::Obs(_)) && !gate.is_empty() && latch.is_none() {
+                    // "certainly still running": go on only when a held system is really inside
+                    // `run`, waiting at its gate (or the hold is gone / nothing will come any more)
+                    let t0 = Instant::now();
+                    let mut idle_run = 0;
+                    while gates.at_gate.load(SeqCst) == 0 && t0.elapsed() < Duration::from_millis(watchdog_ms) {
+                        if !w.holds.lock().unwrap().iter().any(|h| h.disp == my) {
+                            break;
+                        }
+                        if all_parked(ptids) == Some(true) {
+                            idle_run += 1;
+                            if idle_run >= 8 {
+                                break;
+                            }
+                            std::thread::sleep(Duration::from_micros(200));
+                        } else {
+                            idle_run = 0;
+                            std::thread::yield_now();
+                        }
+                    }
+                }
+                if !matches!(rel, Rel::Obs(_)) && (!gate.is_empty() || latch.is_some()) {
+                    // timer / block release: a helper opens the gates (the registered hold stays
+                    // until then, so that the watcher can still release it when the caller parks)
                     let (g, e, rel) = (gates.clone(), entered.clone(), rel.clone());
                     let seen = entered.load(SeqCst);
+                    let w2 = w.clone();
+                    w.legacy_pending.fetch_add(1, SeqCst);
                     helpers.push(std::thread::spawn(move || {
                         let t0 = Instant::now();
                         let us = match rel {
-                            Rel::Timer(us) => us,
+                            Rel::Timer(us) | Rel::Obs(us) => us,
                             Rel::Block(us) => {
                                 while e.load(SeqCst) <= seen && t0.elapsed() < Duration::from_millis(1000) {
                                     std::thread::sleep(Duration::from_micros(20));
@@ -371,9 +726,14 @@ pub fn run_real(case: &Case, shared: &Arc<Shared>, pools: &[Pool], skip: &[usize
                             }
                         };
                         std::thread::sleep(Duration::from_micros(us));
+                        w2.holds.lock().unwrap().retain(|h| h.disp != my);
                         for t in gate {
                             g.open(t, my);
                         }
+                        if let Some(l) = latch {
+                            l.open();
+                        }
+                        w2.legacy_pending.fetch_sub(1, SeqCst);
                     }));
                 }
             }
@@ -388,21 +748,176 @@ pub fn run_real(case: &Case, shared: &Arc<Shared>, pools: &[Pool], skip: &[usize
     }
     // never leave anything blocked behind
     entered.fetch_add(1000, SeqCst);
+    w.release_all(gates);
     gates.open_all();
     for h in helpers {
         let _ = h.join();
     }
     gates.open_all();
+    seq += 1;
+    w.cur_op.store(2, SeqCst);
+    w.entered.store(seq, SeqCst);
     let _ = catch_unwind(AssertUnwindSafe(|| with_d!(&mut d, x => x.wait_without_tl())));
+    w.returned.store(seq, SeqCst);
+    drop(d);
+    panicked
+}
+
+/// runs the operation sequence on the real dispatcher (on a thread of its own) and watches it;
+/// everything is logged on `shared`
+pub fn run_real(case: &Case, shared: &Arc<Shared>, env: &Env, skip: &[usize]) -> RunOut {
+    let ntags = Op::max_tag(&case.ops) + 1;
+    let gates = Gates::new(ntags, env.watchdog_ms);
+    shared.reset_behaviour();
+    shared.reset_state();
+    shared.take_log();
+    shared.inside.store(0, SeqCst);
+    for (t, us) in &case.holds {
+        if let Some(b) = shared.behav.get(*t) {
+            b.hold_us.store(*us, SeqCst);
+        }
+    }
+    let pi = (case.threads - 1).min(env.pools.len() - 1);
+    let pool = env.pools[pi].clone();
+    let ptids: Vec<u64> = env.tids[pi].iter().cloned().filter(|t| *t != 0).collect();
+    let ptids = if ptids.len() == env.tids[pi].len() { ptids } else { vec![] };
+    let w = Arc::new(Watch {
+        entered: AtomicU64::new(0),
+        returned: AtomicU64::new(0),
+        cur_op: AtomicUsize::new(0),
+        tid: AtomicU64::new(0),
+        holds: Mutex::new(vec![]),
+        legacy_pending: AtomicU64::new(0),
+        rel_blocked: AtomicU64::new(0),
+        rel_returned: AtomicU64::new(0),
+        rel_settle: AtomicU64::new(0),
+        rel_fallback: AtomicU64::new(0),
+        quiet_seen: AtomicU64::new(0),
+        quiet_missed: AtomicU64::new(0),
+        pool_idle_seen: AtomicU64::new(0),
+        abandoned: AtomicBool::new(false),
+    });
+    let mut out = RunOut::default();
+    let (tx, rx) = mpsc::channel::<Option<String>>();
+    let handle = {
+        let (case, shared, gates, w, pool, ptids, skip, wd) = (case.clone(), shared.clone(), gates.clone(), w.clone(), pool.clone(), ptids.clone(), skip.to_vec(), env.watchdog_ms);
+        std::thread::Builder::new().name("asyncd-caller".into()).spawn(move || {
+            let r = caller_body(&case, &shared, &gates, &w, &pool, &ptids, &skip, wd);
+            let _ = tx.send(r);
+        })
+    };
+    let handle = match handle {
+        Ok(h) => h,
+        Err(e) => {
+            out.panicked = Some(format!("harness: cannot start the caller thread: {}", e));
+            return out;
+        }
+    };
+    // watch the caller: release what is held once it has been seen parked inside a call (or the
+    // bound expires); notice a call that stays parked although nothing is left to wait for
+    let (mut cur, mut t_enter, mut parked) = (0u64, Instant::now(), 0u32);
+    let mut stuck_since: Option<Instant> = None;
+    let mut stuck_samples = 0u64;
+    loop {
+        match rx.recv_timeout(Duration::from_micros(30)) {
+            Ok(p) => {
+                out.panicked = p;
+                let _ = handle.join();
+                break;
+            }
+            Err(mpsc::RecvTimeoutError::Disconnected) => {
+                out.panicked = Some("harness: the caller thread ended without a result".into());
+                let _ = handle.join();
+                break;
+            }
+            Err(mpsc::RecvTimeoutError::Timeout) => {}
+        }
+        let e = w.entered.load(SeqCst);
+        let r = w.returned.load(SeqCst);
+        if e <= r {
+            stuck_since = None;
+            continue;
+        }
+        if e != cur {
+            cur = e;
+            t_enter = Instant::now();
+            parked = 0;
+            stuck_since = None;
+        }
+        let tid = w.tid.load(SeqCst);
+        let holding = !w.holds.lock().unwrap().is_empty();
+        if holding {
+            stuck_since = None;
+            let st = thread_state(tid);
+            parked = if st == Some('S') { parked + 1 } else { 0 };
+            let el = t_enter.elapsed();
+            if parked >= 2 {
+                if w.returned.load(SeqCst) < e && w.release_all(&gates) > 0 {
+                    w.rel_blocked.fetch_add(1, SeqCst);
+                }
+            } else if st.is_none() && el > Duration::from_micros(500) || el > Duration::from_millis(50) {
+                if w.release_all(&gates) > 0 {
+                    w.rel_fallback.fetch_add(1, SeqCst);
+                }
+            }
+            continue;
+        }
+        // nothing is held by the harness any more
+        if t_enter.elapsed() < Duration::from_millis(20) {
+            continue;
+        }
+        let quiet = w.legacy_pending.load(SeqCst) == 0
+            && shared.inside.load(SeqCst) == 0
+            && thread_state(tid) == Some('S')
+            && all_parked(&ptids) == Some(true)
+            && w.holds.lock().unwrap().is_empty();
+        if !quiet {
+            stuck_since = None;
+            stuck_samples = 0;
+            continue;
+        }
+        stuck_samples += 1;
+        let since = *stuck_since.get_or_insert_with(Instant::now);
+        if since.elapsed() > Duration::from_millis(env.hang_ms) && w.returned.load(SeqCst) < e {
+            let op = OPS[w.cur_op.load(SeqCst).min(OPS.len() - 1)];
+            out.hang = Some((
+                op.to_string(),
+                format!(
+                    "the calling thread has been parked inside {}() for {} ms ({} consecutive samples) while no system is inside run, nothing is held by the harness and every pool worker is parked; runs finished per system: {:?}",
+                    op,
+                    since.elapsed().as_millis(),
+                    stuck_samples,
+                    gates.done.iter().map(|c| c.load(SeqCst)).collect::<Vec<_>>()
+                ),
+            ));
+            // the thread (and the dispatcher it owns) is abandoned
+            w.abandoned.store(true, SeqCst);
+            drop(handle);
+            break;
+        }
+        std::thread::sleep(Duration::from_micros(500));
+    }
+    gates.open_all();
     out.watchdog = gates.watchdog_fired.load(SeqCst);
     out.gate_waits = gates.waited.load(SeqCst);
+    out.rel_blocked = w.rel_blocked.load(SeqCst);
+    out.rel_returned = w.rel_returned.load(SeqCst);
+    out.rel_settle = w.rel_settle.load(SeqCst);
+    out.rel_fallback = w.rel_fallback.load(SeqCst);
+    out.quiet_seen = w.quiet_seen.load(SeqCst);
+    out.quiet_missed = w.quiet_missed.load(SeqCst);
+    out.pool_idle_seen = w.pool_idle_seen.load(SeqCst);
     let raw = shared.take_log();
     // what ran during the cleanup `wait_without_tl` is not part of the case (normally nothing)
     let mut cnt: BTreeMap<(char, usize), usize> = BTreeMap::new();
     for e in raw {
         match e.kind {
             'C' => out.log.push(Ent::Call(e.inst[0])),
-            'R' => out.log.push(Ent::Ret(e.inst[0], e.inst[1] != 0)),
+            'R' => {
+                out.snaps.push((out.log.len(), e.inst.get(2).cloned().unwrap_or(0), e.inst.get(3).cloned().unwrap_or(0) as u64));
+                out.log.push(Ent::Ret(e.inst[0], e.inst[1] != 0));
+            }
+            'Q' => out.log.push(Ent::Quiet),
             k => {
                 let tag = *e.inst.last().unwrap_or(&0);
                 let c = cnt.entry((k, tag)).or_insert(0);
@@ -411,10 +926,9 @@ pub fn run_real(case: &Case, shared: &Arc<Shared>, pools: &[Pool], skip: &[usize
             }
         }
     }
-    for t in staged.iter().chain(case.tls().iter()) {
+    for t in case.staged().iter().chain(case.tls().iter()) {
         out.runs.insert(*t, shared.behav[*t].runs.load(SeqCst));
     }
-    drop(d);
     out
 }
 
@@ -436,9 +950,41 @@ pub fn impl_oracles(case: &Case, skip: &[usize], out: &RunOut) -> Vec<(String, S
     if let Some(p) = &out.panicked {
         add("panic", format!("a dispatcher operation panicked: {}", p));
     }
+    let snaps: BTreeMap<usize, (usize, u64)> = out.snaps.iter().map(|(i, a, b)| (*i, (*a, *b))).collect();
     for (i, e) in out.log.iter().enumerate() {
         let open: Vec<usize> = staged.iter().cloned().filter(|t| nf[t] > nd[t]).collect();
+        // counters read at the moment the call returned (independent of the order of the log)
+        if let (Ent::Ret(o, val), Some((inside, done))) = (e, snaps.get(&i)) {
+            let want = (rets * staged.len()) as u64;
+            match *o {
+                3 => {
+                    if !*val && *inside > 0 {
+                        add("running-false-while-open", format!("log[{}]: running() returned false at a moment at which {} system(s) were inside run", i, inside));
+                    } else if !*val && *done != want {
+                        add("running-false-before-done", format!("log[{}]: running() returned false at a moment at which {} runs of ordinary systems had finished; {} dispatches of {} systems were issued", i, done, rets, staged.len()));
+                    }
+                }
+                0 => {
+                    if *done < want {
+                        add("dispatch-overtakes", format!("log[{}]: dispatch #{} returned at a moment at which only {} runs of ordinary systems had finished ({} systems)", i, rets, done, staged.len()));
+                    }
+                }
+                _ => {
+                    if *inside > 0 {
+                        add("accessor-while-open", format!("log[{}]: {} returned at a moment at which {} system(s) were inside run", i, OPS[*o], inside));
+                    } else if *done != want {
+                        add("accessor-before-done", format!("log[{}]: {} returned at a moment at which {} runs of ordinary systems had finished; {} dispatches of {} systems were issued", i, OPS[*o], done, rets, staged.len()));
+                    }
+                }
+            }
+        }
         match e {
+            Ent::Quiet => {
+                // the harness's own reading of the completion counters; nothing may start after it
+                if !open.is_empty() {
+                    add("harness", format!("log[{}]: completion signal while system(s) {:?} are inside run", i, open));
+                }
+            }
             Ent::Call(o) => {
                 cur = Some(*o);
                 if *o == 0 {
@@ -557,7 +1103,8 @@ pub struct Eval {
     pub layout: String,
 }
 
-pub fn eval_case(case: &Case, drv: Option<&mut Drv>, pools: &[Pool], watchdog_ms: u64) -> Eval {
+pub fn eval_case(case: &Case, drv: Option<&mut Drv>, env: &Env) -> Eval {
+    let pools = &env.pools;
     let shared = Shared::new(Op::max_tag(&case.ops) + 1);
     let mut drv = drv;
     let mut model_v = vec![];
@@ -569,13 +1116,26 @@ pub fn eval_case(case: &Case, drv: Option<&mut Drv>, pools: &[Pool], watchdog_ms
     let skip: Vec<usize> = built.infos.values().filter(|i| !i.placed).map(|i| i.tag).collect();
     let layout = built.model_layouts.get(&None).cloned().unwrap_or_default();
     drop(built);
-    let out = run_real(case, &shared, pools, &skip, watchdog_ms);
+    let mut out = run_real(case, &shared, env, &skip);
+    if out.watchdog {
+        // a starved harness thread, not the crate: the bound alone decides nothing — once more
+        out = run_real(case, &shared, env, &skip);
+    }
     let impl_v = impl_oracles(case, &skip, &out);
     if out.watchdog {
         model_v.push(("harness".into(), "a gate watchdog fired: a system waited for its gate longer than the bound".into()));
     }
+    if let Some((op, why)) = &out.hang {
+        // `Async.blocked_only_while_running`: in the model a blocking call is disabled only while
+        // the job has not sent, and the job can send once every system has finished
+        let from = out.log.len().saturating_sub(24);
+        model_v.push((
+            "async-progress".into(),
+            format!("{}() does not return although the model enables its return: {} [end of the merged log: {}]", op, why, out.log[from..].iter().map(|e| e.show()).collect::<Vec<_>>().join("; ")),
+        ));
+    }
     if let Some(d) = drv {
-        if out.panicked.is_none() {
+        if out.panicked.is_none() && out.hang.is_none() {
             if let Some(why) = model_check(d, &layout, &out.log) {
                 model_v.push(("async-log".into(), why));
             }
@@ -599,14 +1159,23 @@ fn shrink_case(case: &Case, pred: &mut dyn FnMut(&Case) -> bool) -> Case {
     }
     // gates and holds
     for i in 0..cur.aops.len() {
-        if let AOp::Dispatch { gate, rel } = cur.aops[i].clone() {
+        if let AOp::Dispatch { gate, rel, queue } = cur.aops[i].clone() {
             let mut j = 0;
             let mut gate = gate;
+            let mut queue = queue;
+            if queue {
+                let mut c = cur.clone();
+                c.aops[i] = AOp::Dispatch { gate: gate.clone(), rel: rel.clone(), queue: false };
+                if pred(&c) {
+                    cur = c;
+                    queue = false;
+                }
+            }
             while j < gate.len() {
                 let mut g2 = gate.clone();
                 g2.remove(j);
                 let mut c = cur.clone();
-                c.aops[i] = AOp::Dispatch { gate: g2.clone(), rel: rel.clone() };
+                c.aops[i] = AOp::Dispatch { gate: g2.clone(), rel: rel.clone(), queue };
                 if pred(&c) {
                     cur = c;
                     gate = g2;
@@ -638,14 +1207,97 @@ fn shrink_case(case: &Case, pred: &mut dyn FnMut(&Case) -> bool) -> Case {
     cur
 }
 
+/// what the distribution counters need to know about one evaluated case
+struct Shape {
+    run_true: u64,
+    run_false: u64,
+    entered_open: u64,
+    second_disp_open: u64,
+    /// (entry point, context) of every call: context = the job of the latest dispatch was …
+    /// 0 idle (already observed complete) / 1 inside run / 2 not started / 3 finished on its own, unobserved
+    ctxs: Vec<(usize, usize)>,
+    /// (first entry point to look at a dispatch that finished on its own, a later entry point
+    /// issued while a system of a later dispatch was inside run or its job had not started)
+    pairs: Vec<(usize, usize)>,
+}
+fn shape(case: &Case, log: &[Ent]) -> Shape {
+    let tls = case.tls();
+    let mut sh = Shape { run_true: 0, run_false: 0, entered_open: 0, second_disp_open: 0, ctxs: vec![], pairs: vec![] };
+    let mut open = 0i64;
+    // state of the latest dispatch as the harness knows it from the log
+    let (mut started, mut pending_disp, mut unobserved_quiet) = (false, false, false);
+    let mut first_obs: Vec<usize> = vec![];
+    for e in log {
+        match e {
+            Ent::Sys { k: 'F', tag, .. } if !tls.contains(tag) => {
+                open += 1;
+                started = true;
+            }
+            Ent::Sys { k: 'D', tag, .. } if !tls.contains(tag) => open -= 1,
+            Ent::Sys { .. } => {}
+            Ent::Quiet => {
+                if pending_disp {
+                    unobserved_quiet = true;
+                }
+            }
+            Ent::Call(o) => {
+                let ctx = if open > 0 {
+                    1
+                } else if pending_disp && !started {
+                    2
+                } else if unobserved_quiet {
+                    3
+                } else {
+                    0
+                };
+                sh.ctxs.push((*o, ctx));
+                if ctx == 3 {
+                    first_obs.push(*o);
+                    unobserved_quiet = false;
+                    pending_disp = false;
+                } else if (ctx == 1 || ctx == 2) && *o != 0 {
+                    for f in &first_obs {
+                        sh.pairs.push((*f, *o));
+                    }
+                }
+                if open > 0 && *o != 3 {
+                    sh.entered_open += 1;
+                    if *o == 0 {
+                        sh.second_disp_open += 1;
+                    }
+                }
+            }
+            Ent::Ret(3, true) => sh.run_true += 1,
+            Ent::Ret(3, false) => {
+                sh.run_false += 1;
+                pending_disp = false;
+            }
+            Ent::Ret(0, _) => {
+                pending_disp = true;
+                started = open > 0;
+                unobserved_quiet = false;
+            }
+            Ent::Ret(_, _) => pending_disp = false,
+        }
+    }
+    sh
+}
+
 pub fn run(args: &Args, rep: &mut Report) {
     let seed = args.num("seed", 1);
     let cases = args.num("cases", 300);
     let max_ops = args.num("max-ops", 12);
     let watchdog_ms = args.num("watchdog-ms", 3000);
+    let hang_ms = args.num("hang-ms", 5000);
+    // histories: every sequence of `hist` steps (context × entry point); `hist-stride` > 1 takes
+    // every stride-th of them (offset from the seed)
+    let hist = args.num("hist", 0);
+    let hist_stride = args.num("hist-stride", 1).max(1);
     let mut drv = Drv::spawn(&args.str("driver", "/verif/lean/.lake/build/bin/driver"));
-    let pools: Vec<Pool> = (1..=4).map(make_pool).collect();
-    rep.rule = "flat registration sequences (profile flat + thread-local systems) × random sequences of ≤ max-ops dispatch / running / spin / wait / wait_without_tl / world / world_mut / setup on a real AsyncDispatcher (World or Arc<World>, pool of 1-4 threads) with per-dispatch gates holding chosen systems inside run until the caller has entered its next blocking operation (or a timer fires); distinct = distinct case texts; non-trivial = a system was really held at a gate and (running() answered true or an accessor / second dispatch was entered while a system was inside run)".into();
+    let env = Env::new(watchdog_ms, hang_ms);
+    // while a stuck case is being made smaller a shorter observation period is enough
+    let env_shrink = Env { pools: env.pools.clone(), tids: env.tids.clone(), watchdog_ms, hang_ms: hang_ms.min(1200) };
+    rep.rule = "(a) histories: every sequence of `hist` steps, a step = one of the 9 public methods of AsyncDispatcher (dispatch / wait / wait_without_tl / running / world / world_mut / setup / res / mut_res) issued in one of 4 contexts — idle; held: after a fresh dispatch with a system kept inside run; queued: after a fresh dispatch whose job cannot start; settled: after a fresh dispatch that finished on its own (the harness waits for the systems' own completion signal and an idle pool, no dispatcher method) — on 8 fixed plans / pools / world types; (b) flat registration sequences (profile flat + thread-local systems) × random sequences of ≤ max-ops such operations plus spin and settle (World or Arc<World>, pool of 1-4 threads), per-dispatch gates / queued jobs released after n further operations, by timer, or after the caller entered its next blocking operation. Held systems are released only when the operation under test has returned or the calling thread has been seen parked inside it. distinct = distinct case texts; non-trivial = an entry point was issued while a system was inside run / the job had not started / the job had finished on its own unobserved".into();
     let mut todo: Vec<(String, Case)> = vec![];
     if let Some(f) = args.get("replay") {
         let text = std::fs::read_to_string(&f).expect("replay file");
@@ -665,41 +1317,65 @@ pub fn run(args: &Args, rep: &mut Report) {
         }
     }
     if args.get("replay").is_none() {
+        if hist > 0 {
+            let total = STEPS.pow(hist as u32);
+            let mut i = seed % hist_stride;
+            while i < total {
+                todo.push((format!("hist:{}:{}", hist, i), hist_case(i, hist, i / hist_stride + seed)));
+                rep.count("history_cases");
+                i += hist_stride;
+            }
+        }
         for c in 0..cases {
             todo.push((format!("gen:{}:{}", seed, c), gen_case(seed, c, max_ops)));
         }
     }
     let mut reported: std::collections::BTreeSet<String> = Default::default();
+    let mut pairs_seen: std::collections::BTreeSet<(usize, usize)> = Default::default();
+    let mut ctx_seen: std::collections::BTreeSet<(usize, usize)> = Default::default();
+    let mut stuck = 0;
     for (label, case) in todo {
+        if stuck >= 3 {
+            // every further stuck call would cost a whole observation period; the verdict is in
+            rep.count("cases_not_run_after_three_stuck_calls");
+            continue;
+        }
         drv.begin_case();
-        let ev = eval_case(&case, Some(&mut drv), &pools, watchdog_ms);
+        let t_case = Instant::now();
+        let ev = eval_case(&case, Some(&mut drv), &env);
+        if args.flag("slow") && t_case.elapsed() > Duration::from_millis(args.num("slow-ms", 30)) {
+            eprintln!("SLOW {} ms {}\n  {}", t_case.elapsed().as_millis(), label, case.lines().join("\n  "));
+        }
+        rep.maxi("max_case_ms", t_case.elapsed().as_millis() as u64);
         // distribution
-        let mut open = 0i64;
-        let (mut run_true, mut run_false, mut entered_open, mut second_disp_open) = (0u64, 0u64, 0u64, 0u64);
+        let sh = shape(&case, &ev.out.log);
         for e in &ev.out.log {
             match e {
-                Ent::Sys { k: 'F', tag, .. } if !case.tls().contains(tag) => open += 1,
-                Ent::Sys { k: 'D', tag, .. } if !case.tls().contains(tag) => open -= 1,
-                Ent::Sys { .. } => rep.count("thread_local_events"),
-                Ent::Call(o) => {
-                    rep.count(&format!("op_{}", OPS[*o]));
-                    if open > 0 && *o != 3 {
-                        entered_open += 1;
-                        if *o == 0 {
-                            second_disp_open += 1;
-                        }
-                    }
-                }
-                Ent::Ret(3, true) => run_true += 1,
-                Ent::Ret(3, false) => run_false += 1,
+                Ent::Sys { tag, .. } if case.tls().contains(tag) => rep.count("thread_local_events"),
+                Ent::Call(o) => rep.count(&format!("op_{}", OPS[*o])),
+                Ent::Quiet => rep.count("quiet_completion_signal_seen"),
                 _ => {}
             }
         }
-        rep.add("running_true", run_true);
-        rep.add("running_false", run_false);
-        rep.add("blocking_op_entered_while_a_system_is_inside_run", entered_open);
-        rep.add("dispatch_entered_while_previous_still_running", second_disp_open);
+        for (o, c) in &sh.ctxs {
+            rep.count(&format!("ctx_{}_{}", ["job_observed_complete", "system_inside_run", "job_not_started", "finished_on_its_own_unobserved"][*c], OPS[*o]));
+            ctx_seen.insert((*o, *c));
+        }
+        for pr in &sh.pairs {
+            pairs_seen.insert(*pr);
+        }
+        rep.add("hist_first_look_after_own_finish_then_later_call_while_running", sh.pairs.len() as u64);
+        rep.add("running_true", sh.run_true);
+        rep.add("running_false", sh.run_false);
+        rep.add("blocking_op_entered_while_a_system_is_inside_run", sh.entered_open);
+        rep.add("dispatch_entered_while_previous_still_running", sh.second_disp_open);
         rep.add("systems_held_at_a_gate", ev.out.gate_waits);
+        rep.add("released_after_caller_seen_parked_in_the_call", ev.out.rel_blocked);
+        rep.add("released_after_the_call_returned", ev.out.rel_returned);
+        rep.add("released_by_settle", ev.out.rel_settle);
+        rep.add("released_by_time_bound", ev.out.rel_fallback);
+        rep.add("settle_without_completion", ev.out.quiet_missed);
+        rep.add("settle_pool_seen_idle", ev.out.pool_idle_seen);
         rep.add("log_events", ev.out.log.len() as u64);
         rep.maxi("max_log_len", ev.out.log.len() as u64);
         rep.add("registrations", Op::count(&case.ops) as u64);
@@ -709,10 +1385,17 @@ pub fn run(args: &Args, rep: &mut Report) {
         if case.aops.iter().any(|a| matches!(a, AOp::Dispatch { gate, .. } if !gate.is_empty())) {
             rep.count("cases_with_gated_dispatch");
         }
+        if case.aops.iter().any(|a| matches!(a, AOp::Dispatch { queue: true, .. })) {
+            rep.count("cases_with_queued_dispatch");
+        }
         if ev.out.watchdog {
             rep.count("watchdog_fired");
         }
-        let nontrivial = ev.out.gate_waits > 0 && (run_true > 0 || entered_open > 0);
+        if ev.out.hang.is_some() {
+            rep.count("stuck_calls");
+            stuck += 1;
+        }
+        let nontrivial = sh.ctxs.iter().any(|(_, c)| *c != 0);
         rep.case(&case.lines().join("\n"), nontrivial);
         if ev.model_v.is_empty() && ev.out.panicked.is_none() {
             rep.traces_validated += 1;
@@ -729,11 +1412,11 @@ pub fn run(args: &Args, rep: &mut Report) {
                 let cl = class.clone();
                 let small = shrink_case(&case, &mut |c: &Case| {
                     // timing may matter: the failure must show in one of two runs
-                    (0..2).any(|_| eval_case(c, None, &pools, watchdog_ms).impl_v.iter().any(|(q, _)| *q == cl))
+                    (0..2).any(|_| eval_case(c, None, &env_shrink).impl_v.iter().any(|(q, _)| *q == cl))
                 });
                 let mut what2 = what.clone();
                 for _ in 0..3 {
-                    let r2 = eval_case(&small, None, &pools, watchdog_ms);
+                    let r2 = eval_case(&small, None, &env_shrink);
                     if let Some(x) = r2.impl_v.iter().find(|(q, _)| q == class) {
                         what2 = format!("{} [merged log: {}]", x.1, r2.out.log.iter().map(|e| e.show()).collect::<Vec<_>>().join("; "));
                         break;
@@ -745,13 +1428,22 @@ pub fn run(args: &Args, rep: &mut Report) {
         for (aspect, what) in &ev.model_v {
             if reported.insert(format!("model:{}", aspect)) {
                 let asp = aspect.clone();
+                // a stuck call costs a whole observation period per attempt: bounded effort
+                let mut budget = if asp == "async-progress" { 14 } else { 400 };
                 let small = shrink_case(&case, &mut |c: &Case| {
+                    if budget == 0 {
+                        return false;
+                    }
+                    budget -= 1;
                     drv.begin_case();
-                    (0..2).any(|_| eval_case(c, Some(&mut drv), &pools, watchdog_ms).model_v.iter().any(|(a, _)| *a == asp))
+                    let tries = if asp == "async-progress" { 1 } else { 2 };
+                    (0..tries).any(|_| eval_case(c, Some(&mut drv), &env_shrink).model_v.iter().any(|(a, _)| *a == asp))
                 });
                 rep.violate(&format!("MODEL:{}", aspect), "model", "", format!("{} [{}]", what, label), small.lines());
             }
         }
     }
+    rep.add("distinct_entry_point_x_job_state", ctx_seen.len() as u64);
+    rep.add("distinct_first_look_x_later_call_pairs", pairs_seen.len() as u64);
     rep.add("driver_requests", drv.requests);
 }
